@@ -94,7 +94,7 @@ CRem(t, a, b) == IF RSigned(t) /\ a = RMin(t) /\ b = -1 THEN cUB ELSE Wrap(t, Tr
 Impl(t, op, cdiv, a, b, bconst) ==
   LET usec == cdiv \/ ~RSigned(t) IN
   IF b = 0 THEN (IF cdiv THEN cUB ELSE cZ)
-  ELSE IF ~cdiv /\ RSigned(t) /\ op = "div" /\ t.long /\ b = -1 /\ a = RMin(t) THEN cO
+  ELSE IF ~cdiv /\ RSigned(t) /\ op = "div" /\ b = -1 /\ a = RMin(t) THEN cO   \* guard for every signed width (since the C04 fix)
   ELSE IF op = "div" THEN (IF usec THEN CDiv(t, a, b) ELSE DivHelper(t, a, b, bconst))
   ELSE (IF usec THEN CRem(t, a, b) ELSE ModHelper(t, a, b, bconst))
 
